@@ -146,7 +146,18 @@ func (w *Foreign) Header(t *tape.Tape) {
 		if mid == 0 {
 			x0, y0 := t.Range(-64, 0), t.Range(-64, 0)
 			vals := []int{x0, y0, x0 + 1 + t.Intn(64), y0 + 1 + t.Intn(64)}
-			for _, v := range vals {
+			// a writer may also store values the format forbids in a viewBox (not
+			// a number, an infinity of either sign, min above max) or merely odd
+			// ones (huge, denormal, -0), in a chunk that is framed correctly
+			hostileAt := -1
+			if t.Chance(1, 5) {
+				hostileAt = t.Intn(4)
+			}
+			for vi, v := range vals {
+				if vi == hostileAt {
+					body.Float4(math.Float32frombits(weird[t.Intn(len(weird))]))
+					continue
+				}
 				switch t.Pick(3, 2, 1) {
 				case 0:
 					body.B = append(body.B, byte(v+64)<<1)
